@@ -267,6 +267,11 @@ def install_objects(E):
     ns.attrs['BoundedSemaphore'] = VClass('asyncio.BoundedSemaphore', ctor=_sem)
 
     def _attr(E_, o, name, node):
+        h0 = E.builtins.get('__getattr_ext__')
+        if h0 is not None:
+            r0 = h0(E_, o, name, node)
+            if r0 is not None:
+                return r0
         if isinstance(o, Obj) and o.cls == 'AEvent':
             ev = o.fields['ident']
             if name == 'set':
@@ -278,8 +283,7 @@ def install_objects(E):
                     wget(E, 'ev_set', lambda: E.fresh('ev_set', z3.ArraySort(EvS, B))), ev)))
             if name == 'wait':
                 return VStub('Event.wait', lambda E_, a, k: mk_awaitable('event_wait', ev=ev))
-        h = E.builtins.get('__getattr_ext__')
-        return h(E_, o, name, node) if h else None
+        return None
     E.builtins['__getattr__'] = _attr
 
     def _daemon(E_, a, k):
